@@ -156,11 +156,13 @@ PROPS = {
         level_note="Trusted: bytes.Reader as the source. A prefix that is itself a structurally valid file (judged by pqref) would be exempt; such prefixes are counted (label prefix_is_valid_file).",
         fixtures=["tiny", "flat24", "nest"],
         gen_anchored=True,
-        stages=[dict(test="TestC11", kind="rapid", quick=640, thorough=16000, timeout_thorough=5400)],
+        stages=[dict(test="TestC11", kind="rapid", quick=640, thorough=16000, timeout_thorough=5400), dict(test="TestC11Tail", kind="enum", quick=1, thorough=1)],
         replay="TestReplayC11",
         rule="rapid workloads (<= 16 records, <= 3 row groups, all codecs, fixtures tiny/flat24/nest) written by the library; for every n in 0..len-1 the first n bytes are opened "
              "with NewParquetReader over bytes.Reader and iterated with the README loop under recover; violation iff no error from the constructor and Error()==nil after iteration, or a panic. "
-             "One evaluation = one (file, n); every cut is non-trivial; classified by where the cut falls (magic, data, footer, tail); distinct by (workload hash, n).",
+             "One evaluation = one (file, n); every cut is non-trivial; classified by where the cut falls (magic, data, footer, tail); distinct by (workload hash, n). Every prefix is opened twice: with the source at offset 0 and positioned after the leading magic. "
+             "Stage 2 (directed, seed independent): files with densely varying footer lengths (1..30/45 row groups x 1..6 rows in the last one x 3 codecs x 26/40 padding lengths) and every cut in the last 16 bytes - "
+             "the crash point of an interrupted Close, whose last sink writes are footer, footer length and trailing magic.",
     ),
     "C06": dict(
         level="exploration",
